@@ -228,7 +228,7 @@ func gen(r *hx.Rand, big bool) scenario {
 		}
 		end := hx.Pick(r, []string{"close", "sever", "leave", "leave"})
 		if i == hungAt {
-			end = "hung" // a peer that completes the handshake and then never answers anything
+			end = hx.Pick(r, []string{"hung", "hung-hinted"}) // a peer that completes the handshake and then never answers anything
 		}
 		ls = append(ls, fmt.Sprintf("life name=%d end=%s delay=%d", r.Intn(2), end, r.Intn(3000)))
 	}
@@ -319,7 +319,7 @@ func run(sc scenario, seed uint64, rep *hx.Report) (lines, expect []string, skip
 		case "life":
 			d, _ := strconv.Atoi(kvs(ws, "delay"))
 			time.Sleep(time.Duration(d) * time.Microsecond)
-			if kvs(ws, "end") == "hung" {
+			if kvs(ws, "end") == "hung" || kvs(ws, "end") == "hung-hinted" {
 				u := "ws" + strings.TrimPrefix(ts.URL, "http") + "/" + kvs(ws, "name")
 				hc, _, err := websocket.DefaultDialer.Dial(u, nil)
 				if err != nil {
@@ -332,6 +332,11 @@ func run(sc scenario, seed uint64, rep *hx.Report) (lines, expect []string, skip
 						}
 					}
 				}()
+				if kvs(ws, "end") == "hung-hinted" {
+					// it announces that it wants to stop, and then never answers the shutdown call that follows
+					hc.WriteMessage(websocket.BinaryMessage, []byte{0, 0, 0, 0, 0, 0, 0, 0, 7, 0})
+					time.Sleep(50 * time.Millisecond)
+				}
 				hungs = append(hungs, hc)
 				continue
 			}
@@ -538,7 +543,8 @@ func main() {
 		// look-up and its map write; a kicked peer that never answers the shutdown request
 		scs = append(scs,
 			scenario{[]string{"holdkick name=0", "life name=0 end=leave delay=0", "life name=0 end=leave delay=0", "life name=0 end=leave delay=2000", "life name=1 end=close delay=0"}},
-			scenario{[]string{"life name=1 end=hung delay=0", "life name=1 end=leave delay=500", "life name=0 end=sever delay=0"}})
+			scenario{[]string{"life name=1 end=hung delay=0", "life name=1 end=leave delay=500", "life name=0 end=sever delay=0"}},
+			scenario{[]string{"life name=0 end=hung-hinted delay=0", "life name=0 end=leave delay=500"}})
 		n := 25
 		if f.Thorough() {
 			n = 400
@@ -573,7 +579,7 @@ func main() {
 		for _, l := range sc.lines {
 			if ws := strings.Fields(l); ws[0] != "life" {
 				rep.Count("sched:" + ws[0])
-			} else if kvs(ws, "end") == "hung" {
+			} else if strings.HasPrefix(kvs(ws, "end"), "hung") {
 				rep.Count("sched:hung-peer")
 			}
 		}
